@@ -122,6 +122,17 @@ def generate(seed, tier="quick"):
             f["sites"][sid] = {"op": trng.choice(["eq", "eq", "in", "le"]) if wrap in ("bare", "tuple") else trng.choice(["eq", "in"]), "place": "direct", "arg": None, "prev": None}
             f["tests"].append({"name": f"test_twin{k}", "events": [{"t": "cmp", "eid": f"etw{k}", "site": sid, "vals": [val], "style": "rec"}]})
             twins.append(sid)
+    krng = sub(seed, "setkeys")
+    if krng.random() < 0.3:
+        # sets of strings in *key* position of a created dict (bare, or inside a tuple key), and as dict values next to them
+        f = prog["files"][0]
+        fs = lambda: ["frozenset", V._uniq([["str", krng.choice("abcdefgh") * krng.randint(1, 2)] for _ in range(krng.randint(2, 4))])]
+        keyv = fs() if krng.random() < 0.6 else ["tuple", [["int", krng.randint(0, 3)], fs()]]
+        val = ["dict", [[keyv, krng.choice([["int", 1], fs()])], [["str", "k"], ["int", 2]]]]
+        if krng.random() < 0.3:
+            val = ["list", [val]]
+        f["sites"]["sk"] = {"op": krng.choice(["eq", "eq", "in"]), "place": "direct", "arg": None, "prev": None}
+        f["tests"].append({"name": "test_setkeys", "events": [{"t": "cmp", "eid": "esk", "site": "sk", "vals": [val], "style": "rec"}]})
     return {"program": prog, "twins": twins, "flags": sub(seed, "flags").choice(["create,fix", "create,fix,update", "create,fix,trim,update"]),
             "driver": "plugin" if sub(seed, "driver").random() < 0.1 else "inline", "dict_order": sub(seed, "do").randint(0, 10**6)}
 
